@@ -46,21 +46,15 @@ impl Database for SledDB {
     }
 
     fn load(config: Self::Config) -> PmtreeResult<Self> {
-        let db = match config.open() {
-            Ok(db) => db,
-            Err(e) => {
-                return Err(PmtreeErrorKind::DatabaseError(
-                    DatabaseErrorKind::CustomError(format!("Cannot load database: {e}")),
-                ))
-            }
-        };
+        // A location whose lock is still held by a handle that is being closed is retried, as in `new`:
+        // giving up at once would make the caller create (and thereby reset) an existing tree
+        let db = Self::new_with_tries(config, 0)?.0;
 
+        // Only "nothing was stored here" is reported as `CannotLoadDatabase`, so that a caller can tell
+        // it apart from a failure to read an existing database
         if !db.was_recovered() {
             return Err(PmtreeErrorKind::DatabaseError(
-                DatabaseErrorKind::CustomError(format!(
-                    "Database was not recovered: {}",
-                    config.path.display()
-                )),
+                DatabaseErrorKind::CannotLoadDatabase,
             ));
         }
 
